@@ -1027,6 +1027,23 @@ fn main() {
         },
         Some("selfcheck") => cmd_selfcheck(&args),
         Some("probe") => cmd_probe(&args),
+        // development aid: print the plans of a stratum as JSON lines (no execution)
+        Some("plans") => {
+            let seed: u64 = arg_val(&args, "--seed").and_then(|s| s.parse().ok()).unwrap_or(DEFAULT_SEED);
+            let n: u64 = arg_val(&args, "--n").and_then(|s| s.parse().ok()).unwrap_or(3000);
+            let stratum = arg_val(&args, "--stratum").unwrap_or_else(|| "B".into());
+            let corpus = worker::load_corpus().expect("corpus");
+            let gen = gen::Gen { corpus: &corpus, verif_seed: seed };
+            for i in 0..n {
+                let p = match stratum.as_str() {
+                    "A" => gen.plan_a(i, 4),
+                    "C" => gen.plan_c(i, &[]),
+                    _ => gen.plan_b(i, &[]),
+                };
+                println!("{}", serde_json::to_string(&p).unwrap());
+            }
+            0
+        }
         Some("runplan") => {
             seams::install();
             let p: Plan = serde_json::from_str(&std::fs::read_to_string(&args[2]).expect("read plan")).expect("parse plan");
